@@ -239,7 +239,7 @@ def extract():
                 raise GenError(f"constant {rust} ({rel}:{ln}): value {v} does not fit its type {ty}")
         env_by_file.setdefault(rel, {})[rust] = v
         env.setdefault(rust, v)
-        out.append((lean, v, f"{rel}:{ln}: `{src}`"))
+        out.append((lean, v, f"{rel}: `{src}`"))
 
     # MAGIC: [u8; 4] = *b"NOMT"  -> the little-endian u32 the decoder reads
     rel = "nomt/src/store/meta.rs"
@@ -250,7 +250,7 @@ def extract():
     if len(ms) != 1:
         raise GenError(f"constant MAGIC: expected exactly one `const MAGIC: [u8; 4] = *b\"....\";` in {rel}, found {len(ms)}")
     out.append(("META_MAGIC", int.from_bytes(ms[0].group(1).encode("ascii"), "little"),
-                f"{rel}:{line_of(t, ms[0].start())}: `{' '.join(ms[0].group(0).split())}` read as a little-endian u32"))
+                f"{rel}: `{' '.join(ms[0].group(0).split())}` read as a little-endian u32"))
 
     # field offsets of Meta::encode_to, cross-checked against Meta::decode
     enc = re.search(r"pub fn encode_to\(&self, buf: &mut \[u8\]\) \{(.*?)\n    \}", t, re.S)
@@ -270,8 +270,8 @@ def extract():
         if dec_r[f] != enc_r[f][:2]:
             raise GenError(f"{rel}: field {f}: encode_to writes buf[{enc_r[f][0]}..{enc_r[f][1]}] but decode reads buf[{dec_r[f][0]}..{dec_r[f][1]}]")
         a, b, ln = enc_r[f]
-        out.append((f"META_{f.upper()}_START", a, f"{rel}:{ln}: `buf[{a}..{b}]` <- `self.{f}` (encode_to; decode reads the same range)"))
-        out.append((f"META_{f.upper()}_END", b, f"{rel}:{ln}"))
+        out.append((f"META_{f.upper()}_START", a, f"{rel}: `buf[{a}..{b}]` <- `self.{f}` (encode_to; decode reads the same range)"))
+        out.append((f"META_{f.upper()}_END", b, f"{rel}"))
 
     for lean, rel, rx, descr in PATTERNS:
         t = read(rel)
@@ -282,7 +282,7 @@ def extract():
             raise GenError(f"constant {lean}: the code pattern of {descr} was found {len(ms)} times in {rel}, expected once "
                            "(the code changed shape: look at it and update the pattern or the model)")
         v = eval_int(ms[0].group(1), env, f"constant {lean}")
-        out.append((lean, v, f"{rel}:{line_of(t, ms[0].start(1))}: {descr}"))
+        out.append((lean, v, f"{rel}: {descr}"))
 
     names = [o[0] for o in out]
     dup = {n for n in names if names.count(n) > 1}
@@ -297,7 +297,7 @@ def render(consts):
         "# GENERATED FILE — do not edit",
         "",
         "Written by `tools/gen_constants.py` from the Rust sources of nomt (working tree of `/repo`; the",
-        "source file and line of every value is given in its doc comment).  `tools/check.py` and",
+        "source file of every value is given in its doc comment).  `tools/check.py` and",
         "`tools/setup.py` regenerate it on every run; `Store/ConstantsCheck.lean` ties the hand-written",
         "constants of the Lean decoders and models to these values.",
         "-/",
